@@ -137,6 +137,10 @@ class ReloadSim(S.Sim):
                 self.noid = getattr(self, "noid", 0) + 1
                 w._verif_oid = self.noid
             attrs = {a: _jsonable(getattr(w, a, "<absent>")) for a in ATTRS}
+            # the stream class is popped from the conf dict when the stream is built: the object says which class took effect
+            for ch in ("stdout_stream", "stderr_stream"):
+                so = getattr(w, ch, None)
+                attrs[ch + "_class"] = None if so is None else type(so).__name__
             ws.append({"name": w.name, "oid": w._verif_oid, "np": w.numprocesses, "status": w._status,
                        "pids": [int(p) for p in w.processes],
                        "cfg": _jsonable(getattr(w, "_cfg", None)),
@@ -153,6 +157,8 @@ class ReloadSim(S.Sim):
                 "spawn_args": {str(p): _jsonable(self.k.spawn_args.get(p)) for p in live},
                 "signalled": sorted(set(int(l.split(" ")[2]) for l in log if l.startswith("o sig "))),
                 "reply": reps[-1] if reps else None,
+                "reply_errno": ([l.split(" ")[5] for l in log if l.startswith("o rep ")] or [None])[-1],
+                "slot": self.arb._exclusive_running_command,
                 "raised": list(self.raised), "errors": list(self.errors)[-3:], "blocked": bool(self.blocked)}
 
 
